@@ -394,6 +394,8 @@ pub fn run_batch(bin: &str, dir: &str, progs: &[(Program, Layout)], rng: &mut Rn
         .map(|(n, (p, lay))| {
             let r = render(p, lay, rng, n);
             let mut sin = Vec::new();
+            // only the last line of the input can lack its newline
+            assert!(p.stdin.iter().rev().skip(1).all(|s| s.newline), "harness: script line without newline before the end");
             for s in &p.stdin {
                 sin.extend_from_slice(&s.bytes());
             }
